@@ -82,17 +82,26 @@ def prepare(prop, idx, job):
     open(nat, "w").write(render(os.path.join(ROOT, "harness", "prelude_native.go.tmpl"), params))
     harness_names = []
     hfiles = []
+    nfiles = []
     for k, t in enumerate(job.templates):
         src = render(os.path.join(ROOT, "harness", t), params)
         hp = os.path.join(wd, "h%d.go" % k)
         open(hp, "w").write(src)
         hfiles.append(hp)
         harness_names += re.findall(r"^func (H_\w+)\(\)", src, re.M)
+        # a template may have a native twin (x.native.go.tmpl) used for the replay build
+        nt = os.path.join(ROOT, "harness", t.replace(".go.tmpl", ".native.go.tmpl"))
+        if os.path.exists(nt):
+            np_ = os.path.join(wd, "h%d_native.go" % k)
+            open(np_, "w").write(render(nt, params))
+            nfiles.append(np_)
+        else:
+            nfiles.append(hp)
     rp = dict(params)
     rp["HarnessMap"] = "\n".join('\t"%s": %s,' % (h, h) for h in harness_names)
     rt = os.path.join(wd, "replay_test.go")
     open(rt, "w").write(render(os.path.join(ROOT, "harness", "replay_test.go.tmpl"), rp))
-    files.update(wd=wd, sym=sym, nat=nat, hfiles=hfiles, replay_test=rt, pkgdir=pkgdir, harnesses=harness_names)
+    files.update(wd=wd, sym=sym, nat=nat, hfiles=hfiles, nfiles=nfiles, replay_test=rt, pkgdir=pkgdir, harnesses=harness_names)
     return files
 
 
@@ -135,7 +144,7 @@ def replay(prop, job, files, h):
     repl = {}
     shutil.copy(files["nat"], os.path.join(keep, "prelude_native.go"))
     repl["%s/zz_verif_prelude.go" % files["pkgdir"]] = os.path.join(keep, "prelude_native.go")
-    for k, hp in enumerate(files["hfiles"]):
+    for k, hp in enumerate(files["nfiles"]):
         dst = os.path.join(keep, "h%d.go" % k)
         shutil.copy(hp, dst)
         repl["%s/zz_verif_h%d.go" % (files["pkgdir"], k)] = dst
@@ -158,7 +167,12 @@ def replay(prop, job, files, h):
     except subprocess.TimeoutExpired:
         out = "replay timeout"
     open(os.path.join(keep, "replay.out"), "w").write(out)
-    reproduced = ("VERIF-REPLAY: assertion failed" in out) or ("VERIF-REPLAY: panic" in out)
+    v = h.get("violated") or {}
+    if v.get("kind") == "assert":
+        m = re.search(r"VERIF-REPLAY: assertion failed: \[(.*)\]", out)
+        reproduced = bool(m) and v.get("id", "") in m.group(1)
+    else:
+        reproduced = "VERIF-REPLAY: panic" in out
     return reproduced, script, out
 
 
